@@ -26,6 +26,18 @@ def families(tier):
                 fams.append({'id': f'pump|{p}|{u}|{sfx}', 'prefix': p, 'unit': u, 'suffix': sfx, 'sizes': [4, 8, 12, 16, 20, 24, 28, 32, 48, 64, 96, 128, 200, 290]})
     for u, sep in LINES:
         fams.append({'id': f'lines|{u}|{sep}', 'kind': 'lines', 'unit': u, 'sep': sep, 'prefix': '', 'suffix': '', 'sizes': [2, 3, 4, 5, 6, 7, 8, 10, 12, 16, 24]})
+    # every chain of up to three aliquot components written without joiners (the until-stable loops of the aliquot parser)
+    comps = ['N/2', 'S/2', 'E/2', 'W/2', 'NE/4', 'NW/4', 'SE/4', 'SW/4']
+    chains = [a + b for a in comps for b in comps] + [a + b + c for a in comps for b in comps for c in comps] + \
+             [a + ' of the ' + b for a in comps for b in comps]
+    texts = ['T154N-R97W Sec 1: ' + ch for ch in chains]
+    for k in range(0, len(texts), 80):
+        part = texts[k:k + 80]
+        fams.append({'id': f'texts|aliquot-chains|{k}', 'kind': 'texts', 'texts': part, 'unit': '', 'sep': '', 'prefix': '', 'suffix': '', 'sizes': list(range(len(part)))})
+    # the same short description parsed again and again in one process (state carried between calls)
+    for cfg in ['ocr_scrub', 'parse_qq', 'segment,sec_within', 'clean_qq,parse_qq']:
+        fams.append({'id': f'repeat|T154N-R97W Sec 14: NE/4 of the land|{cfg}', 'kind': 'repeat', 'unit': 'T154N-R97W Sec 14: NE/4 of the land', 'config': cfg,
+                     'sep': '', 'prefix': '', 'suffix': '', 'sizes': [5, 10, 20, 40, 80]})
     return fams
 
 
